@@ -59,6 +59,11 @@ class Meta(dict):
         for key in kwargs:
             self[key] = kwargs[key]
 
+    def __ior__(self, other):
+        # dict.__ior__ would bypass the key validation of __setitem__
+        self.update(other)
+        return self
+
     def setdefault(self, key, value=None):
         if key not in self:
             self[key] = value
